@@ -74,6 +74,15 @@ NOTES = {
  'C07-10': 'first caught only through the tie: field spellings are now also written as TEXT (\"a\", \"a\"\" OR 1=1 --\", [a], `a` ...): whatever the lexer accepts must end up inside exactly one quoted identifier',
  'C08-10': 'first caught only through the tie: a Boolean literal before / after a numeric literal in one filter, with the values 1 / 0 / 1.0 / 0.0 among the assignments (true == 1 in Python)',
  'C19-9': 'first caught only through the tie: whitespace runs of 64, 65, 500, 5 000 characters (blanks, tabs, line breaks) at every whitespace position added',
+ 'C01-11': 'first missed: the string pools had no value with a RUN of blanks, a tab or a line break inside; added (as literals and as row values) for all semantic checks',
+ 'C03-11': 'first missed: in-lists of 999 / 1 001 / 1 500 / 2 500 elements whose only row values sit at the END added (int and string columns, plain and negated)',
+ 'C05-11': 'first missed: chains of 64 / 65 / 100 / 200 operands of one operator (left-nested, right-nested with parentheses, under not, mixed and / or, arithmetic) added',
+ 'C06-11': 'first missed: duration seconds with MORE than six fraction digits whose value is exact in microseconds (PT0.5000000S, PT1.50000000S ...) are judged on every run',
+ 'C07-11': 'first missed: lists of 15 / 16 / 17 / 40 / 300 string elements holding the hostile content once (first, middle, last) added to the string positions',
+ 'C13-11': 'first missed: identifiers spelled like operator keywords (add ... or) in every identifier position - path root / segment, lambda owner and variable, parameter name, function name',
+ 'C15-10': 'first missed: base queries whose root entity is an ALIAS of the model (select(aliased(P)), query(aliased(P)), pre-filtered / ordered) added',
+ 'C16-11': 'first missed: trees in which one node OBJECT sits at several positions (hand-built, interned random trees, AliasRewriter output) with a numbering override, judged against a document-order reference',
+ 'C19-10': 'first missed: spellings just outside today\'s grammar (not( , )and( , in( ...) added to the corpus: rejected ones are skipped, an accepted one must be accepted in every keyword case',
  'C20-4': 'first missed: accumulation histories (40-120 repetitions of one input, nine kinds that leave a parenthesis open) and extreme single inputs added',
 }
 
@@ -84,12 +93,12 @@ def main():
     n = len(res); caught = sum(1 for rc, v in res.values() if rc == '1'); inp = sum(1 for rc, v in res.values() if rc == '1' and 'no-failing' not in v)
     out = ["### 0.5 Seeded changes and which checks catch them", "",
     "Every seeded change below compiles, leaves the pinned suite at 648 passed / 10 xfailed / 4 errors, and was confirmed in a scratch worktree (its own `demo.py` passes on HEAD and fails with the patch;",
-    "`harness/confirm_seed.sh`). They were written in ten rounds by fresh sub-agents that saw only the property text, a scratch worktree of /repo and (from round 2 on) one-line summaries of the",
+    "`harness/confirm_seed.sh`). They were written in eleven rounds by fresh sub-agents that saw only the property text, a scratch worktree of /repo and (from round 2 on) one-line summaries of the",
     "earlier seeds for the same property so as to differ in mechanism - nothing from /verif. `harness/seed_matrix.sh` applies each in an isolated scratch worktree, runs the quick check of its",
     f"property in a scratch copy of /verif and writes `seeded/RESULTS.tsv`: {caught} of {n} are reported, {inp} with a failing input. Where a change was first missed (or caught only through a broken",
     "tie), the generator or the judge was strengthened (last column, regenerated by `harness/mkseedtable.py`) - the properties and the pass criteria were not touched. First-time detection per round",
     "(own check, before any strengthening): rounds 1-2 (47 seeds): the first misses are the ones marked in the last column (C03-3, C08-3, C12-2, C12-3, C12-4); round 3 (11 seeds): 7 with a failing input,",
-    "1 through the tie only, 3 missed; round 4 (20 seeds): 8 with a failing input, 3 through the tie only, 9 missed; round 5 (20 seeds): 10 with a failing input, 2 through the tie only, 7 missed, 1 crashed the translator; round 6 (20 seeds): 11 with a failing input, 3 through the tie only, 6 missed; round 7 (20 seeds): 13 with a failing input, 4 through the tie only, 3 missed; round 8 (20 seeds): 12 with a failing input, 1 through the tie only, 7 missed; round 9 (20 seeds): 13 with a failing input, 7 missed; round 10 (20 seeds): 8 with a failing input, 5 through the tie only, 7 missed - rounds 3 to 10 were asked to avoid every mechanism used before, and each miss named a",
+    "1 through the tie only, 3 missed; round 4 (20 seeds): 8 with a failing input, 3 through the tie only, 9 missed; round 5 (20 seeds): 10 with a failing input, 2 through the tie only, 7 missed, 1 crashed the translator; round 6 (20 seeds): 11 with a failing input, 3 through the tie only, 6 missed; round 7 (20 seeds): 13 with a failing input, 4 through the tie only, 3 missed; round 8 (20 seeds): 12 with a failing input, 1 through the tie only, 7 missed; round 9 (20 seeds): 13 with a failing input, 7 missed; round 10 (20 seeds): 8 with a failing input, 5 through the tie only, 7 missed; round 11 (20 seeds): 11 with a failing input, 9 missed - rounds 3 to 11 were asked to avoid every mechanism used before, and each miss named a",
     "blind spot of a GENERATOR or of a judge's scope (literal spellings, type-confusable contents, sequences on one instance, accumulation, an over-broad refusal rule, a schema feature), never of a theorem.", "",
     "| seed | file(s) | what it changes | caught by | note |", "|---|---|---|---|---|"]
     for d in sorted(glob.glob('/verif/seeded/*/')):
